@@ -70,6 +70,7 @@ enum Op {
     Union(u32, u32),
     Find(u32),
     Same(u32, u32),
+    Reset,
 }
 
 #[derive(Clone, Debug, PartialEq, Eq)]
@@ -77,6 +78,7 @@ enum Ret {
     Pair(u32, u32),
     One(u32),
     Bool(bool),
+    Done,
 }
 
 #[derive(Clone, Debug)]
@@ -96,6 +98,11 @@ fn apply(p: &mut Part, op: &Op) -> Ret {
         }
         Op::Find(a) => Ret::One(p.find(*a)),
         Op::Same(a, b) => Ret::Bool(p.find(*a) == p.find(*b)),
+        Op::Reset => {
+            let n = p.lab.len();
+            *p = Part::new(n);
+            Ret::Done
+        }
     }
 }
 
@@ -173,6 +180,7 @@ fn parse_ops(s: &Sexp) -> Vec<Op> {
                 ("union", [x, y]) => Some(Op::Union(*x, *y)),
                 ("find", [x]) => Some(Op::Find(*x)),
                 ("same", [x, y]) => Some(Op::Same(*x, *y)),
+                ("reset", []) => Some(Op::Reset),
                 _ => None,
             }
         })
@@ -252,6 +260,10 @@ fn check_concurrent(case: &Case, ops: &[Sexp], res: &mut CaseResult) {
                     }
                     Op::Find(a) => Ret::One(uf.find(Id(*a)).0),
                     Op::Same(a, b) => Ret::Bool(uf.same_set(Id(*a), Id(*b))),
+                    Op::Reset => {
+                        uf.reset();
+                        Ret::Done
+                    }
                 };
                 let r = clock.fetch_add(1, Ordering::SeqCst);
                 evs.push(Event { thread: t, op, ret, inv, res: r });
@@ -296,6 +308,12 @@ fn check_concurrent(case: &Case, ops: &[Sexp], res: &mut CaseResult) {
         return;
     }
     // quiescent state: partition == connectivity, representative == minimum
+    // (with a reset in the history the final partition depends on the
+    // linearization order; the linearizability check above covers it)
+    if events.iter().any(|e| e.op == Op::Reset) {
+        res.nontrivial = true;
+        return;
+    }
     let mut model = Part::new(n);
     for e in &events {
         if let Op::Union(a, b) = e.op {
@@ -398,10 +416,11 @@ impl Property for C17 {
         for _ in 0..nt {
             let mut prog = Vec::new();
             for _ in 0..per {
-                prog.push(match rng.weighted(&[6, 3, 2]) {
+                prog.push(match rng.weighted(&[24, 12, 8, 1]) {
                     0 => Sexp::call("union", vec![Sexp::int(rng.range(0, dom - 1)), Sexp::int(rng.range(0, dom - 1))]),
                     1 => Sexp::call("find", vec![Sexp::int(rng.range(0, dom - 1))]),
-                    _ => Sexp::call("same", vec![Sexp::int(rng.range(0, dom - 1)), Sexp::int(rng.range(0, dom - 1))]),
+                    2 => Sexp::call("same", vec![Sexp::int(rng.range(0, dom - 1)), Sexp::int(rng.range(0, dom - 1))]),
+                    _ => Sexp::call("reset", vec![]),
                 });
             }
             ops.push(Sexp::call("thread", prog));
